@@ -8,7 +8,9 @@ def run(prop, tier, seed):
     rep = vlib.Report(prop, tier, seed)
     rng = random.Random(seed * 7919 + int(prop[1:]))
     leaf.check_into(rep, prop, tier, rng)
-    proto.check_into(rep, prop, tier, rng, module="Properties_%s_dispatch" % prop, merge=True)
+    # C06: the dispatch half has its own theorem file; C05: the end-to-end half re-uses Properties_C05 (already checked)
+    module = "Properties_%s_dispatch" % prop if prop == "C06" else "-none-"
+    proto.check_into(rep, prop, tier, rng, module=module, merge=True)
     return rep.finish()
 
 
